@@ -12,7 +12,8 @@ RULE = ("record lists of length 1..200 (log-uniform), names of 0..40 printable c
         "seeded randomly stalling consumer (stalls up to 3 ms; plus one stall of 2.5 s in quick / 5 s in thorough with the "
         "producer blocked on a full channel), also fed through a slow "
         "io.Pipe reader for capacities 0,1,2,3,8 (parsing overlaps consumption); whitespace-only lines among the ignorable "
-        "lines; Build's text is held across further Build calls (sequential and two goroutines). Quick tier: a race-detector run over a subset incl. a > 64 KiB stream. "
+        "lines; Build's text is held across further Build calls (sequential and two goroutines); Write goes to a path that already "
+        "holds a longer file; a ReadGzConcurrent stream of >= 200 KiB is interrupted by ReadGz / ReadGzConcurrent on another file. Quick tier: a race-detector run over a subset incl. a > 64 KiB stream. "
         "non-trivial = at least one record has a non-empty sequence; distinct by case text")
 EXHAUSTIVE = {"quick": False, "thorough": False}
 TRUSTED_BASE = ["compress/gzip (Go's writer and reader are both outside the model)",
@@ -199,6 +200,11 @@ def cases(seed, tier):
     yield ["layout", "gz2", "1", "2", "".join(r.choices(PRINTABLE + NONASCII, k=70000)), seq(r, 100), "1", "9", "", "b", "", "",
            "世界 🧬 é", seq(r, 50), "0", "0", "", "", "", ""]
     yield stream_case(r, [("".join(r.choices(PRINTABLE + NONASCII, k=66000)), seq(r, 70000)), ("é", "A")], cap=0, src="gz2")
+    # a HISTORY of gzip reads: ReadGzConcurrent on a file of >= 200 KiB (capacity 0 / 1), three records consumed, then
+    # ReadGz and ReadGzConcurrent on another file, then the rest of the first
+    for cap in ((0, 1) if quick else (0, 1, 0, 1, 2, 5)):
+        recs = [("gzh%02d" % i + name(r)[:5], seq(r, r.randint(9000, 16000))) for i in range(r.randint(20, 30))]
+        yield stream_case(r, recs, cap=cap, src="gzhist", stall=r.choice([0, 300]))
     # a SLOW consumer: one long stall before its second receive, with more records than the channel holds
     # (n >= cap + 3), so that the producer sits blocked on a send for the whole stall - a producer that gives up
     # on a blocked send after a timeout loses a record here (quick: 2.5 s, one case; thorough: 5 s, three cases)
